@@ -193,6 +193,8 @@ for _p, _gens in {
     "C12": [_S.const_field_frames], "C20": [_S.connect_site_frames],
 }.items():
     PROPS[_p]["structural"] = list(PROPS[_p].get("structural", [])) + _gens
+for _p in ("C03", "C19", "C11", "C14"):
+    PROPS[_p]["structural"] = list(PROPS[_p].get("structural", [])) + [_S.const_field_frames]
 for _p in PROPS:
     PROPS[_p]["structural"] = list(PROPS[_p].get("structural", [])) + [_S.decorator_frames]
 for _p in ("C15", "C16", "C14", "C20"):
